@@ -9,8 +9,10 @@ import (
 	"sort"
 	"strconv"
 	"strings"
+	"sync"
 
 	"verif/harness/ev"
+	"verif/harness/sched/logalpha"
 )
 
 // C20 — no user input or interleaving can crash a node or halt block production.
@@ -102,6 +104,7 @@ type c20Plan struct {
 	freeSwitch bool
 	maxExec    int
 	need       string // non-vacuity: some explored schedule must end in an outcome class containing one of these (|-separated)
+	single     bool   // small system: one vsched process; such plans run side by side instead of being sharded
 }
 
 func c20Plans(thorough bool) []c20Plan {
@@ -125,6 +128,22 @@ func c20Plans(thorough bool) []c20Plan {
 		}
 		out = append(out, pl)
 	}
+	// S10.*: one scenario per log-filter criteria of the scheduler alphabet (logalpha.SchedCriteriaPatterns) against a receipt with logs of
+	// every shape; the criteria does not change the schedule tree (FilterLogs has no scheduling point), so the family is the product
+	// criteria x schedules. need: in some schedule the poll returns logs, i.e. the receipt went through the filter goroutine.
+	patterns, _ := logalpha.SchedCriteriaPatterns()
+	for k := range patterns {
+		pl := c20Plan{scenario: logalpha.CriteriaScenarioName(k), bound: 1, need: "client:matched", single: true}
+		if thorough {
+			pl.bound, pl.single = 2, false
+		}
+		out = append(out, pl)
+	}
+	if thorough {
+		for _, k := range []int{0, len(patterns) - 1} {
+			out = append(out, c20Plan{scenario: logalpha.CriteriaScenarioName(k), bound: 3, need: "client:matched", maxExec: 300000})
+		}
+	}
 	if thorough {
 		// CHESS cost model (switching is free whenever the running thread blocks) on the smallest systems
 		out = append(out, c20Plan{scenario: "S1", bound: 0, freeSwitch: true, need: "got="}, c20Plan{scenario: "S6-", bound: 1, freeSwitch: true, need: ":got|topics-after"})
@@ -141,8 +160,13 @@ func c20Sched(run *ev.Run) {
 	var schedules, steps, states int64
 	exhaustive := true
 	var planDesc []string
-	for _, p := range c20Plans(run.Thorough()) {
-		args := []string{"-scenario", p.scenario, "-bound", strconv.Itoa(p.bound), "-shards", strconv.Itoa(Shards()), fmt.Sprintf("-free-switch=%v", p.freeSwitch)}
+	plans := c20Plans(run.Thorough())
+	runPlan := func(p c20Plan) c20SchedSummary {
+		shards := Shards()
+		if p.single {
+			shards = 1
+		}
+		args := []string{"-scenario", p.scenario, "-bound", strconv.Itoa(p.bound), "-shards", strconv.Itoa(shards), fmt.Sprintf("-free-switch=%v", p.freeSwitch)}
 		if p.maxExec > 0 {
 			args = append(args, "-max-exec", strconv.Itoa(p.maxExec))
 		}
@@ -158,6 +182,32 @@ func c20Sched(run *ev.Run) {
 			fmt.Fprintf(os.Stderr, "HARNESS: vsched output unreadable: %v\n", err)
 			os.Exit(2)
 		}
+		return s
+	}
+	// the single-process plans run side by side (at most Shards() at a time), the others one after the other on all cores
+	sums := make([]c20SchedSummary, len(plans))
+	{
+		var wg sync.WaitGroup
+		sem := make(chan struct{}, Shards())
+		for i, p := range plans {
+			if !p.single {
+				continue
+			}
+			wg.Add(1)
+			go func(i int, p c20Plan) {
+				defer wg.Done()
+				sem <- struct{}{}
+				sums[i] = runPlan(p)
+				<-sem
+			}(i, p)
+		}
+		wg.Wait()
+	}
+	for i, p := range plans {
+		if !p.single {
+			sums[i] = runPlan(p)
+		}
+		s := sums[i]
 		if len(s.Diverged) > 0 {
 			fmt.Fprintf(os.Stderr, "HARNESS-NONDETERMINISM: vsched %s: %s\n", s.Scenario, s.Diverged[0])
 			os.Exit(2)
@@ -179,8 +229,16 @@ func c20Sched(run *ev.Run) {
 			states++
 			ocs = append(ocs, oc)
 			run.Distinct("sched:" + s.Scenario + ":" + oc)
+			if strings.Contains(oc, "filter-semantics-differ-from-reference") {
+				// information: C20 is about crashes, not about which logs a filter returns
+				run.Count("sched_filter_semantics_differences", n)
+			}
 			for i := int64(0); i < n && i < 1; i++ {
 				run.Outcome("sched:" + c20OutcomeClass(oc))
+			}
+			if strings.HasPrefix(oc, "FAIL:") {
+				// a failing schedule is reported below; the non-vacuity demand is about runs in which nothing fails
+				delivered = true
 			}
 			for _, want := range strings.Split(p.need, "|") {
 				if want != "" && strings.Contains(oc, want) {
@@ -272,6 +330,9 @@ func c20SchedReplayRun(r c20SchedReplay) []ev.Finding {
 }
 
 func runC20(replay string) int {
+	if spec := os.Getenv("VERIF_C20_LIVE"); spec != "" {
+		c20LiveChild(spec) // child process of part (f-live), see c20_filters_live.go; never returns
+	}
 	run := ev.NewRun("C20", "model_checking")
 	if replay != "" {
 		return replayCase(run, replay, func(raw json.RawMessage) []ev.Finding {
@@ -308,8 +369,9 @@ func runC20(replay string) int {
 	}
 	run.Coverage["rule"] = abciRule + "(e) schedules: for each closed scenario of the real EventSystem + event bus (drivers: subscribers, deliverer; code threads: eventLoop, consumeEvents, publishTopic, Unsubscribe goroutines) every schedule with at most B deviations " +
 		"from the default schedule (default: keep running the current thread, lowest id when it blocks; a deviation is any other pick, a non-first ready select case / rendezvous partner, or a timer firing before quiescence) is executed to quiescence on the code compiled from the current sources; " +
+		"log subscriptions / filters carry criteria of the alphabet {addresses none|[A]} x {topics lists of <= 3 positions, position i wildcard or [P_i]} (S10.k: one closed system per criteria; S1-S5, S9: one criteria each, wildcards before constrained positions included) and the delivered Ethereum tx events carry receipts whose logs have 0..4 topics with the asked / a foreign value per position; " +
 		"states = distinct terminal outcome classes (+ distinct input/outcome classes of parts a-d), transitions = scheduled steps (+ ABCI calls); (a)-(d): see counters"
 	run.Assumptions = []string{"map accesses of the instrumented packages are checked for happens-before ordering with vector clocks (locks, channel operations, spawn, WaitGroup); other unsynchronised memory accesses are invisible to a cooperative scheduler",
-		"rpc/websockets.go and the geth rpc.Notifier based subscription methods of filters/api.go are not driven", "CometBFT's websocket client is replaced by a shim exposing ResponsesCh / Subscribe / Unsubscribe"}
+		"the scheduler does not drive rpc/websockets.go and the geth rpc.Notifier based subscription methods of filters/api.go (Logs, NewHeads, NewPendingTransactions); eth_subscribe(logs) of rpc/websockets.go and eth_newFilter are driven free running in child processes (part f-live, one arbitrary schedule per input); the Notifier based methods are unreachable in a node (go-ethereum's rpc.Server is served over HTTP only) and their filtering code is covered through the function they share (filters.FilterLogs, part f-grid)", "CometBFT's websocket client is replaced by a shim exposing ResponsesCh / Subscribe / Unsubscribe"}
 	return run.Finish()
 }
